@@ -467,3 +467,30 @@ example :
   decide
 
 end Katib.Ctl
+
+namespace Katib.Ctl
+open Katib Katib.Exp
+
+def rcBefore : TrialO :=
+  { key := ⟨"ns", "t1"⟩, exp := "e", fin := true, retain := true, push := false, objType := .maximize, rv := 4,
+    st := { conds := [⟨.created, true, rTrialCreated, 1⟩, ⟨.running, true, rTrialRunning, 2⟩], started := true } }
+def rcAfter : TrialO :=
+  { rcBefore with
+    rv := 5,
+    st := { rcBefore.st with
+            conds := [⟨.created, true, rTrialCreated, 1⟩, ⟨.running, false, rTrialRunning, 3⟩, ⟨.succeeded, true, rTrialSucceeded, 3⟩] } }
+
+/-- `C07_recreate_counterexample` (known finding): the live Trial is Succeeded and its run object has been removed by
+    someone else; a trial reconcile that still reads the Trial copy from before the completion (a lagging cache; the job
+    lookup is live) creates the run object again — for a Trial that is completed.  "Never creates one for a completed
+    Trial" therefore holds only for reconciles that read the live Trial (`C07_run_object_guard`: the *viewed* Trial is
+    not completed). -/
+theorem C07_recreate_counterexample :
+    let k : Key2 := ⟨"ns", "t1"⟩
+    let view : World := { trials := [rcBefore] }     -- what the cache serves; the job lookup is live: no run object
+    let live : World := { trials := [rcAfter] }
+    tCompleted rcAfter = true ∧ (findJob live k).isNone = true ∧
+    (findJob (exec {} (trialPlan view k 9) live 0 []).w k).isSome = true := by
+  decide
+
+end Katib.Ctl
